@@ -97,6 +97,9 @@ def reference(hist):
             st = RefState(w[1], int(w[3]))
             out.append(st.line("unit"))
             continue
+        if op == "origin":
+            out.append(st.line("unit"))      # the form of the key arguments is not observable
+            continue
         if op == "wb":
             out.append("*")          # white-box line: compared between implementation and model only
             continue
@@ -184,10 +187,15 @@ MODES = [0, 1, 2, 3, 4]
 KINDS = ["map", "set", "pool"]
 
 
-def gen_history(rng, length, kind=None, mode=None):
+ORIGINS = [0, 1, 2, 3, 4, 5, 9]     # forms of a String key argument (harness/hash.cpp StrForm); 9 = rotate on every use
+
+
+def gen_history(rng, length, kind=None, mode=None, origins=False):
     kind = kind or rng.choice(KINDS)
     dom = rng.choice([3, 4, 6, 8])
     h = [f"cfg {kind} {rng.choice(MODES) if mode is None else mode} {dom}"]
+    if origins and rng.random() < 0.6:
+        h.append(f"origin {rng.choice(ORIGINS)}")
     for t in (0, 1):
         if rng.random() < 0.85:
             h.append(f"new {t} {rng.choice(CAPS)}")
@@ -236,6 +244,8 @@ def gen_history(rng, length, kind=None, mode=None):
         else:
             op = "hashstr " + ("".join(f"{rng.randrange(256):02x}" for _ in range(rng.choice([0, 1, 2, 3, 5, 8]))) or "-")
         size[t] = min(size[t], dom + 3)
+        if origins and rng.random() < 0.3:
+            h.append(f"origin {rng.choice(ORIGINS)}")
         h.append(op)
         if rng.random() < 0.12:
             h.append(f"wb {rng.randrange(2)}")
@@ -294,6 +304,18 @@ def sampled(rng, lengths, n):
     return hs
 
 
+def hash_histories(rng, n):
+    """hash(const String&) of the same text in every form (the harness compares all forms on each `hashstr` line):
+    the empty text, every 1-byte text, texts around the sampled positions, random texts"""
+    hs = [["hashstr -"] + [f"hashstr {b:02x}" for b in range(256)]]
+    h = []
+    for _ in range(n):
+        ln = rng.choice([0, 1, 2, 3, 4, 5, 7, 8, 16])
+        h.append("hashstr " + ("".join(f"{rng.choice([0, 1, 0x7f, 0x80, 0xff, rng.randrange(256)]):02x}" for _ in range(ln)) or "-"))
+    hs.append(h)
+    return hs
+
+
 def nontrivial(h, out):
     if len(h) < 4 or not out or out[-1] == "bad-op":
         return None
@@ -332,10 +354,14 @@ def differential_mp(ctx, harness, driver, histories, timeout):
     return diffs
 
 
+def is_string_history(h):
+    return any(l.startswith("cfg ") and l.split()[2] == "5" for l in h)
+
+
 def histories_for(ctx):
     rng = ctx.rng
     quick = ctx.tier == "quick"
-    hs = C.load_corpus(ctx.prop)
+    hs = [h for h in C.load_corpus(ctx.prop) if not is_string_history(h)]     # the others run on the String-key build
     ncorpus = len(hs)
     depth = 3
     # quick tier: length 3 for the all-in-one-bucket and the mod-2 configuration, length 2 for the other three
@@ -352,7 +378,7 @@ def histories_for(ctx):
     ctx.cov["exhaustive"] = False
     ctx.cov["exhaustive_scope"] = (f"length<={depth} over the per-container alphabets x {len(EX_CONFIGS)} configurations"
                                    f"{' (length 3 for 2 of them, length 2 for 3)' if quick else ''}: {len(ex)} histories (complete)")
-    return hs + ex + smp + rnd
+    return hs + hash_histories(rng, 500 if quick else 20000) + ex + smp + rnd
 
 
 def check(ctx):
@@ -400,10 +426,20 @@ def extra_streams(ctx, hs):
     try:
         hstr = C.build_harness(ctx, "hash_str", SOURCES, extra_flags=["-DKEY_STRING"])
         if hstr is not None:
-            ss = [gen_history(rng, rng.choice([5, 10, 20, 40]), mode=5) for _ in range(n)]
-            # the enumerated histories of configuration 0, with hash mode 5
-            ss += [[l if not l.startswith("cfg ") else " ".join(l.split()[:2] + ["5", "4"]) for l in h]
-                   for h in hs if h and h[0].startswith("cfg ") and h[0].split()[2] == "0" and len(h) <= 11][:8000 if quick else 100000]
+            ss = [h for h in C.load_corpus(ctx.prop) if is_string_history(h)]
+            ss += [gen_history(rng, rng.choice([5, 10, 20, 40]), mode=5, origins=True) for _ in range(n)]
+            # the enumerated histories of configuration 0, with hash mode 5 and key arguments rotating through all forms
+            def as_string_history(h):
+                r = []
+                for l in h:
+                    if l.startswith("cfg "):
+                        r += [" ".join(l.split()[:2] + ["5", "4"]), "origin 9"]
+                    else:
+                        r.append(l)
+                return r
+            ss += [as_string_history(h) for h in hs
+                   if h and h[0].startswith("cfg ") and h[0].split()[2] == "0" and len(h) <= 11][:8000 if quick else 100000]
+            ss += hash_histories(rng, 300 if quick else 5000)
             before = ctx.cov["evaluations"]
             diffs = differential_mp(ctx, hstr, C.driver_path(DRIVER), ss, 60 if quick else 240)
             ctx.log(f"string keys: {len(ss)} histories, {ctx.cov['evaluations'] - before} op lines, {len(diffs)} disagreement(s)")
@@ -437,9 +473,17 @@ def extra_streams(ctx, hs):
 
 def replay(ctx, path):
     h = C.parse_replay(path)
-    string_keys = any(l.startswith("cfg ") and l.split()[2] == "5" for l in h)     # history of the String-key stream
-    harness = C.build_harness(ctx, "hash_str" if string_keys else "hash", SOURCES,
-                              extra_flags=["-DKEY_STRING"] if string_keys else [])
+    text = open(path).read()
+    # which build of the harness the history belongs to: the header written by report_diffs names the stream
+    string_keys = "hash-ops-string-keys" in text or any(l.startswith("cfg ") and l.split()[2] == "5" for l in h) \
+        or any(l.startswith("origin ") for l in h)
+    o2 = "hash-ops-O2" in text
+    if string_keys:
+        harness = C.build_harness(ctx, "hash_str", SOURCES, extra_flags=["-DKEY_STRING"])
+    elif o2:
+        harness = C.build_harness(ctx, "hash_o2", SOURCES, extra_flags=["-O2"], sanitize=False)
+    else:
+        harness = C.build_harness(ctx, "hash", SOURCES)
     C.lake_build([DRIVER])
     diffs = C.differential(ctx, harness, C.driver_path(DRIVER), [h], reference, C.default_eq)
     for d in diffs:
